@@ -204,6 +204,13 @@ class Scenario:
         elif c == "a":
             if self.loop.quiescent() and self.loop.next_timer() is not None:
                 self.loop.advance()
+        elif c == "Z":
+            # plain life-cycle calls on the running source, nothing in between: no new incarnation, nothing is read again
+            def restart():
+                self.src.stop()
+                self.src.start()
+            self.loop.do(restart)
+            self.ev("Restart")
         elif c == "R":
             self.log.fail_next = True        # the next batch that reaches the consumer is refused
         elif c in ("d", "D"):
@@ -250,7 +257,7 @@ def run(cfg, schedule):
 
 
 def random_schedule(cfg, rng, n):
-    al = ["P0", "P0", "P1", "S", "s", "s", "s", "a", "a", "d", "d", "D", "X", "N"]
+    al = ["P0", "P0", "P1", "S", "s", "s", "s", "a", "a", "d", "d", "D", "X", "N", "Z"]
     if cfg.get("faults"):
         al += ["R"]
     if cfg["maxparts"] > 2:
